@@ -383,15 +383,47 @@ def format (setv : β → β) (s : SVec β) : SVec β := { s with buf := s.buf.m
 /-- the value array as scalars (`elements<Perspective::pod>()`, sorts) -/
 def elements {α : Type} (flat : β → List α) (s : SVec β) : List α := (s.buf.map fun p => flat p.2).flatten
 
-/-- `max_abs_element()` etc. AS CODED: the index kernel runs over the first `size<pod>()` scalars of the value
-array (not over the stored entries); `none` = null / out-of-bounds read -/
-def extremeAsCoded {α : Type} (leafK : List α → Option α) (flat : β → List α) (w : Nat) (s : SVec β) :
-    Option α × SVec β :=
-  if s.buf.isEmpty then (none, s)
-  else
-    let s' := s.sort
-    let e := s'.elements flat
-    if s.size * w ≤ e.length then (leafK (e.take (s.size * w)), s') else (none, s')
+/-- which of the four members -/
+inductive ExtKind where
+  | maxAbs | minAbs | max | min
+deriving Repr, DecidableEq
+
+/-- the dense kernel that belongs to a member (`Arch::MaxAbsIndex` … + element fetch) -/
+def ExtKind.leaf {α : Type} [LT α] [DecidableLT α] [Neg α] [Zero α] : ExtKind → List α → Option α
+  | .maxAbs => maxAbsElemK
+  | .minAbs => minAbsElemK
+  | .max => maxElemK
+  | .min => minElemK
+
+/-- the scalars the fixed members scan: the first `used_elements<pod>()` scalars of the value array, i.e. the
+scalars of the first `used_elements()` stored values (`elements<pod>()` after `sort()`) -/
+def stored {α : Type} (flat : β → List α) (s : SVec β) : List α := (s.entries.map fun p => flat p.2).flatten
+
+/-- the body of the fixed members: `used = used_elements<pod>()`, `n = size<pod>()`, `e` = the stored scalars;
+`result = 0`, only the stored scalars are scanned, the implicit zeros of the other `n - used` positions are
+accounted for -/
+def extremeValue {α : Type} [LT α] [DecidableLT α] [Neg α] [Zero α] (kind : ExtKind) (used n : Nat) (e : List α) : α :=
+  match kind with
+  | .maxAbs => if 0 < used then (maxAbsElemK e).getD 0 else 0
+  | .minAbs => if 0 < used ∧ used = n then (minAbsElemK e).getD 0 else 0
+  | .max =>
+    if 0 < used then
+      let m := (maxElemK e).getD 0
+      if used < n ∧ m < 0 then 0 else m
+    else 0
+  | .min =>
+    if 0 < used then
+      let m := (minElemK e).getD 0
+      if used < n ∧ 0 < m then 0 else m
+    else 0
+
+/-- `max_abs_element()`, `min_abs_element()`, `max_element()`, `min_element()` of SparseVector /
+SparseVectorBlocked AS CODED (after fix 1e5a5ec6a); `used_elements<pod>()` sorts. `w` is the number of scalars per
+stored value (1 or the block size). -/
+def extremeCoded {α : Type} [LT α] [DecidableLT α] [Neg α] [Zero α] (kind : ExtKind) (flat : β → List α) (w : Nat)
+    (s : SVec β) : α × SVec β :=
+  let s' := s.sort
+  (extremeValue kind (s'.used * w) (s.size * w) (s'.stored flat), s')
 
 /-- "last write wins": the value of the last stored entry with index `i` -/
 def lookupLast : List (Nat × β) → Nat → Option β
